@@ -198,10 +198,10 @@ from that list is configured, had its masks satisfied when the list was read, an
 a child element of the list `adv`, which is an item the peer really sent (an element of the
 peer script) -/
 theorem C01_cached_advertised {c : Conf} (h : Reach C O st0 script picks c) {st : St}
-    {fs : List Feature} {adv : List AdvItem} (he : Ev.listIn st fs adv ∈ c.tr) :
+    {fs : List Feature} {adv : List AdvItem} {es : List Entry} (he : Ev.listIn st fs adv es ∈ c.tr) :
     (adv = [] ∨ Peer.adv adv ∈ script) ∧
     ∀ f ∈ fs, f ∈ C ∧ eligible st f = true ∧ ∃ req, AdvItem.feat f.name req ∈ adv :=
-  (invP_reach h).inOK st fs adv he
+  (invP_reach h).inOK st fs adv es he
 
 /-- **the receiver advertises exactly the configured features whose prerequisites hold**, in
 configuration order, whenever it writes a features list -/
@@ -298,6 +298,14 @@ theorem C01_voluntary_first (c : Conf) (hpc : c.pc = .cloop false)
        injection h1 with _ _ hreq
        have hm := List.mem_of_find?_eq_some ‹List.find? _ (allowed (candidates c)) = some _›
        exact allowed_mandatory hm hreq)
+
+/-- **voluntary first**, as a property of every reachable trace (newest first): whenever the
+initiator negotiates a mandatory entry of the list (`req = true`, not forced), every voluntary
+entry recorded for that list (`lastEntries`) that is negotiable and eligible in the state of
+that call has already been negotiated on the current stream (`segNs`) — for every map
+iteration order -/
+theorem C01_voluntary_first_trace {c : Conf} (h : Reach C O st0 script picks c) : VolOK c.tr :=
+  (invV_reach h).ok
 
 /-! ### negotiation ends -/
 
